@@ -7,12 +7,19 @@ mod dbdump;
 mod dbgen;
 mod dbq;
 mod dbrun;
+mod failrun;
 mod gen_types;
 mod rng;
 mod sexp;
+#[cfg(agdb_verif)]
+mod walrun;
+#[cfg(agdb_verif)]
+mod crashrun;
 
 use std::collections::BTreeMap;
 use std::io::Write;
+
+pub static LAST_PANIC: std::sync::Mutex<String> = std::sync::Mutex::new(String::new());
 
 #[global_allocator]
 static GLOBAL: alloc::Tracking = alloc::Tracking;
@@ -58,7 +65,13 @@ fn main() {
     let out = arg(&args, "--out", ".");
     let start: usize = arg(&args, "--start", "0").parse().unwrap();
     std::fs::create_dir_all(&out).unwrap();
-    std::panic::set_hook(Box::new(|_| {}));
+    std::panic::set_hook(Box::new(|info| {
+        // remember where the last panic happened (used to classify failures by site)
+        let loc = info.location().map(|l| format!("{}:{}", l.file(), l.line())).unwrap_or_default();
+        let msg = if let Some(s) = info.payload().downcast_ref::<&str>() { s.to_string() }
+                  else if let Some(s) = info.payload().downcast_ref::<String>() { s.clone() } else { String::new() };
+        *LAST_PANIC.lock().unwrap() = format!("{} @ {}", msg.chars().take(120).collect::<String>(), loc);
+    }));
     let profile = if cfg!(debug_assertions) { 'd' } else { 'r' };
     match cmd.as_str() {
         "c20" | "c21" => {
@@ -75,6 +88,51 @@ fn main() {
             write_lines(&format!("{}/impl{}.txt", out, sfx), &ctx.imp);
             write_lines(&format!("{}/oracle{}.txt", out, sfx), &ctx.oracle);
             write_stats(&format!("{}/stats{}.json", out, sfx), &ctx.stats, ctx.cases.len() as u64, ctx.nontrivial, &ctx.samples);
+        }
+        #[cfg(agdb_verif)]
+        "c01" => {
+            let mut o = walrun::Out { cases: vec![], imp: vec![], oracle: vec![], stats: BTreeMap::new(), samples: vec![], nontrivial: 0, programs: 0, snapshots: 0 };
+            let mut r = rng::Rng::new(seed);
+            let max_ops: u64 = arg(&args, "--steps", "14").parse().unwrap();
+            for i in 0..n {
+                let mut pr = r.fork();
+                walrun::run_program(&mut pr, &out, i, i % 3 == 2, max_ops, &mut o);
+            }
+            write_lines(&format!("{}/cases.txt", out), &o.cases);
+            write_lines(&format!("{}/impl.txt", out), &o.imp);
+            write_lines(&format!("{}/oracle.txt", out), &o.oracle);
+            o.stats.insert("snapshots".into(), o.snapshots);
+            write_stats(&format!("{}/stats.json", out), &o.stats, o.snapshots, o.nontrivial, &o.samples);
+        }
+        #[cfg(agdb_verif)]
+        "crash" => {
+            let mut o = crashrun::Out { oracle: vec![], stats: BTreeMap::new(), samples: vec![], nontrivial: 0, histories: 0, snapshots: 0, cases: vec![], imp: vec![] };
+            let mut r = rng::Rng::new(seed);
+            let max_steps: u64 = arg(&args, "--steps", "8").parse().unwrap();
+            for i in 0..n {
+                let mut pr = r.fork();
+                crashrun::run_history(&mut pr, &out, i, i % 2 == 1, max_steps, arg(&args, "--sample", "1000").parse().unwrap(), &mut o);
+            }
+            write_lines(&format!("{}/oracle.txt", out), &o.oracle);
+            o.stats.insert("snapshots".into(), o.snapshots);
+            write_stats(&format!("{}/stats.json", out), &o.stats, o.snapshots, o.nontrivial, &o.samples);
+        }
+        "fail" => {
+            let mut o = failrun::Out { live: Some(std::fs::OpenOptions::new().create(true).append(true).open(format!("{}/oracle_live.txt", out)).unwrap()), oracle: vec![], stats: BTreeMap::new(), samples: vec![], nontrivial: 0, runs: 0 };
+            let mut r = rng::Rng::new(seed);
+            let max_steps: u64 = arg(&args, "--steps", "6").parse().unwrap();
+            let max_k: u64 = arg(&args, "--maxk", "40").parse().unwrap();
+            for i in 0..n {
+                let mut pr = r.fork();
+                if i < start { continue; }
+                {
+                    use std::io::Write;
+                    if let Some(f) = o.live.as_mut() { let _ = writeln!(f, "#HISTORY {}", i); let _ = f.flush(); }
+                }
+                failrun::run_history(&mut pr, &out, i, i % 2 == 1, max_steps, max_k, &mut o);
+            }
+            write_lines(&format!("{}/oracle.txt", out), &o.oracle);
+            write_stats(&format!("{}/stats.json", out), &o.stats, o.runs, o.nontrivial, &o.samples);
         }
         "db" => {
             let opts = dbrun::Opts {
